@@ -4,6 +4,7 @@ import (
 	"bytes"
 	"errors"
 	"fmt"
+	"io"
 	"reflect"
 	"sort"
 	"strings"
@@ -188,7 +189,7 @@ func (sc *Hist) planSpec(t *core.Tape, env *Env, idx int, beh map[int]peers.Beha
 		cs := t.S(fmt.Sprintf("call/%d/calls", idx))
 		text := gen.Text(cs, gen.JSONCfg{MaxBytes: 2048, MaxDepth: 2 + cs.Draw(4), DupNames: sp.Opts.Enc.AllowDup})
 		sp.Calls = textToCalls(cs, text, 2)
-		sp.Sub = cs.Draw(2) // 1: run on an Encoder that was used before and Reset
+		sp.Sub = cs.Draw(6) // >0: run on an Encoder that was used before and Reset (kinds of old and new writer vary)
 	case hkBig:
 		sp.Sub = s.Draw(3)
 		sp.Desc = []string{"Marshal 1MiB string", "Unmarshal 1MiB doc", "Marshal 300KiB then small"}[sp.Sub]
@@ -649,17 +650,38 @@ func (h *histRun) exec(idx int, sp *HistSpec) (o outcome) {
 		err := jsonv1.Compact(&bb, []byte(sp.Input))
 		return outcome{Out: bb.String(), Extra: fmt.Sprint(jsonv1.Valid([]byte(sp.Input))), Err: errClass{Kind: fmt.Sprint(err != nil)}}
 	case hkEncProg:
+		// the program's destination: a bytes.Buffer or a plain writer
 		var bb bytes.Buffer
-		e := jsontext.NewEncoder(&bb, sp.Opts.Enc.options()...)
-		if sp.Sub == 1 {
-			// an Encoder with a past: a half-written, failed previous use, then Reset
-			var junk bytes.Buffer
-			e.Reset(&junk)
+		sw := core.NewSimWriter(core.WritePlan{})
+		plainNew := sp.Sub == 2 || sp.Sub == 3 || sp.Sub == 4
+		var dst io.Writer = &bb
+		delivered := func() string { return bb.String() }
+		if plainNew {
+			dst = sw
+			delivered = func() string { return string(sw.Got) }
+		}
+		var e *jsontext.Encoder
+		if sp.Sub == 0 {
+			e = jsontext.NewEncoder(dst, sp.Opts.Enc.options()...)
+		} else {
+			// an Encoder with a past: a half-written, failed previous use whose
+			// bytes are still buffered (or were refused by the writer), then Reset
+			var junk io.Writer = new(bytes.Buffer)
+			switch sp.Sub {
+			case 2, 5:
+				junk = core.NewSimWriter(core.WritePlan{})
+			case 3:
+				junk = core.NewSimWriter(core.WritePlan{FaultAt: []core.WriteFault{{Off: 3, Kind: core.WShort}}})
+			}
+			e = jsontext.NewEncoder(junk)
+			if sp.Sub == 3 {
+				e.WriteToken(jsontext.String("a top-level value that the old writer takes only three bytes of"))
+			}
 			e.WriteToken(jsontext.BeginObject)
 			e.WriteToken(jsontext.String("left-open"))
 			e.WriteToken(jsontext.BeginArray)
 			e.WriteValue(jsontext.Value(`{"a":1,"a":2}`))
-			e.Reset(&bb, sp.Opts.Enc.options()...)
+			e.Reset(dst, sp.Opts.Enc.options()...)
 		}
 		var firstErr errClass
 		for _, c := range sp.Calls {
@@ -672,7 +694,7 @@ func (h *histRun) exec(idx int, sp *HistSpec) (o outcome) {
 		}
 		closeEnc(e)
 		extra := fmt.Sprint(e.OutputOffset())
-		if sp.Sub == 1 {
+		if sp.Sub != 0 {
 			// the same program on a fresh Encoder must give the same bytes
 			var fb bytes.Buffer
 			fe := jsontext.NewEncoder(&fb, sp.Opts.Enc.options()...)
@@ -680,11 +702,11 @@ func (h *histRun) exec(idx int, sp *HistSpec) (o outcome) {
 				encDo(fe, c)
 			}
 			closeEnc(fe)
-			if fb.String() != bb.String() || fe.OutputOffset() != e.OutputOffset() {
-				extra = "RESET ENCODER DIFFERS FROM FRESH: " + clipStr(fb.String(), 100)
+			if fb.String() != delivered() || fe.OutputOffset() != e.OutputOffset() {
+				extra = fmt.Sprintf("RESET ENCODER DIFFERS FROM FRESH (past kind %d): reset one delivered %s (offset %d), fresh one %s (offset %d)", sp.Sub, clipStr(delivered(), 100), e.OutputOffset(), clipStr(fb.String(), 100), fe.OutputOffset())
 			}
 		}
-		return outcome{Out: bb.String(), Err: firstErr, Extra: extra}
+		return outcome{Out: delivered(), Err: firstErr, Extra: extra}
 	case hkBig:
 		switch sp.Sub {
 		case 0:
